@@ -33,7 +33,7 @@ PROPS = {
         ],
     },
     "C10": {
-        "suites": ["lexer"],
+        "suites": ["lexer", "parser"],
         "assumptions": [
             "the two line-break tables and the keyword table are regenerated from tokenizer.rs / token.rs on every run and the table obligations re-decided",
             "the full render/tokenize law is evaluated on the implementation (search), its unbounded proof is pending",
